@@ -37,6 +37,7 @@ CLAUSES = {
     "getMessage / formatTime / formatException behaviour": "tie only: stdlib results are passed to the model as inputs",
 }
 PARALLEL = False   # run_impl takes < 1 s for the whole quick stream; forking costs more than it saves
+CASE_TIMEOUT = 180   # wall-clock watchdog per case; generous because the machine may be heavily loaded
 
 LEVELS = [10, 20, 30, 40, 50, 0, 5, 25, 60]
 PIECES = ["hello", " ", "%s", "%d", "%r", "%(a)s", "%(b)d", "%%", "%", "%5.2f", "%c", "%x", "%*d", "\n", "\r\n", "\r", "\x85", " ",
